@@ -1,10 +1,143 @@
-(* C20 — property theorems only. *)
+(* C20 — property theorems only.  Every proof is `exact <lemma>` or a closed computation on a witness. *)
 From Coq Require Import List NArith ZArith Bool.
 Import ListNotations.
-From VF Require Import C20.Model C20.Proofs.
+From VF Require Import C20.Model C20.Proofs C20.ProofsB C20.ProofsC.
+Local Open Scope N_scope.
 
-(* every set the solution iterator's search returns satisfies the requirement it was created for *)
-Theorem iterator_search_sound : forall fuel r st descs st' cur,
-  search fuel r st descs = Some (st', cur) -> cur <> [] -> satisfied r cur = true /\ cur = current st' descs.
-Proof. exact search_sound. Qed.
-Print Assumptions iterator_search_sound.
+(* FULL STATEMENT, verifier side (repaired code).  For every definition (any descriptors with distinct ids, any
+   schema lists, formats, constraints, any submission-requirement tree) and every list of credentials (ids, when
+   present, distinct): if CreateVP produces a presentation, Match on that presentation for the same definition
+   succeeds, returns at least one credential, and every credential it returns under descriptor id is (the
+   disclosed form of) a credential of the holder that satisfies that descriptor's schema list and constraints.
+   `disable` is WithDisableSchemaValidation, which a verifier must pass for definitions without schema members. *)
+Theorem verifier_accepts : forall p creds x disable,
+  NoDup (map d_id (p_descs p)) -> unique_ids creds ->
+  (disable = false -> forall d, In d (p_descs p) -> d_schema d <> []) ->
+  create_vp Fixed p creds = COk x ->
+  exists l, verifier_match Fixed p disable x = MOk l /\ l <> [] /\
+    forall id c, In (id, c) l ->
+      exists d w, find_desc p id = Some d /\ derives Fixed p creds d w /\ c = w_cred w.
+Proof. exact verifier_accepts_lemma. Qed.
+Print Assumptions verifier_accepts.
+
+(* Holder side: every descriptor-map entry points at a credential of the presentation that derives from a holder
+   credential satisfying that descriptor, and every credential of the presentation is pointed at by an entry:
+   credentials that satisfy no (selected) descriptor are never included. *)
+Theorem holder_output_satisfies : forall p creds x,
+  unique_ids creds -> create_vp Fixed p creds = COk x ->
+  (forall mp, In mp (vp_map x) ->
+     exists c d w, nth_error (vp_creds x) (mp_idx mp) = Some c /\ find_desc p (mp_id mp) = Some d /\
+                   derives Fixed p creds d w /\ c = w_cred w) /\
+  (forall n, (n < length (vp_creds x))%nat -> exists mp, In mp (vp_map x) /\ mp_idx mp = n).
+Proof. exact holder_output_lemma. Qed.
+Print Assumptions holder_output_satisfies.
+
+(* `derives` unfolded once: the source credential is one of the holder's and passes the descriptor's filters *)
+Theorem derived_from_satisfying_credential : forall v p creds d w,
+  derives v p creds d w ->
+  exists c, nth_error creds (w_src w) = Some c /\
+            (d_schema d <> [] -> schema_ok (d_schema d) c = true) /\
+            (forall k, d_constraints d = Some k -> constraints_ok k c = true) /\
+            c_id (w_cred w) = c_id c /\ c_issuer (w_cred w) = c_issuer c /\ c_subject (w_cred w) = c_subject c.
+Proof.
+  intros v p creds d w [c [N [[S K] D]]]. exists c. repeat split; auto;
+    destruct D as [[_ [k [_ E]]]|[_ [E _]]]; rewrite E; reflexivity.
+Qed.
+Print Assumptions derived_from_satisfying_credential.
+
+(* Limited disclosure: under limit_disclosure = required the disclosed credential's credentialSubject members
+   are all named by a path of one of the descriptor's fields (the mandatory members id/type/issuer/... are the
+   other record fields of the model and carry no claims). *)
+Theorem limited_disclosure_only_requested : forall v p creds d w k,
+  derives v p creds d w -> d_constraints d = Some k -> k_limit k = true ->
+  forall a, In a (map fst (c_attrs (w_cred w))) -> exists f, In f (k_fields k) /\ In a (f_paths f).
+Proof. exact limited_lemma. Qed.
+Print Assumptions limited_disclosure_only_requested.
+
+(* The solution iterator: every set returned by Next satisfies the requirement and consists of descriptors the
+   iterator still holds (fuel exhaustion is a separate outcome, None). *)
+Theorem iterator_sound : forall r it ex it' sol,
+  next r it ex = Some (it', sol) -> sol <> [] ->
+  satisfied r sol = true /\ (forall x, In x sol -> In x (it_descs it)).
+Proof. exact next_sound. Qed.
+Print Assumptions iterator_sound.
+
+(* the selection CreateVP makes satisfies the definition's requirement logic, and only evaluated descriptors
+   with at least one credential are in it *)
+Theorem holder_selection_satisfies_requirement : forall v p creds fmt sel,
+  holder_select v p creds = HOk fmt sel ->
+  exists r sol, make_req p = Some r /\ sol <> [] /\ satisfied r sol = true /\ map m_desc sel = sol /\
+                Forall (good v p (index_creds 0 creds)) sel.
+Proof. exact holder_select_spec. Qed.
+Print Assumptions holder_selection_satisfies_requirement.
+
+(* IsSatisfiedBy depends on the set of descriptor ids only (order and repetitions of the list are irrelevant) *)
+Theorem satisfied_is_a_set_property : forall r s1 s2,
+  (forall x, memN x s1 = memN x s2) -> satisfied r s1 = satisfied r s2.
+Proof. exact satisfied_ext. Qed.
+Print Assumptions satisfied_is_a_set_property.
+
+(* ---------- witnesses ---------- *)
+Definition fconst (k : N) (z : Z) : field :=
+  {| f_paths := [k]; f_filter := Some {| ft_type := 1; ft_const := Some (VNum z); ft_min := None; ft_max := None; ft_enum := [] |};
+     f_optional := false; f_pred := false |}.
+Definition dsimple (i : N) (g : list N) : desc :=
+  {| d_id := i; d_groups := g; d_schema := [(1, false)];
+     d_constraints := Some {| k_limit := false; k_sii := false; k_fields := [fconst i (Z.of_N i)] |}; d_format := None |}.
+Definition csimple (id : N) (attrs : list (N * jv)) : cred :=
+  {| c_id := id; c_issuer := 50; c_subject := 60; c_types := [1]; c_proofs := []; c_jwt := 0; c_attrs := attrs |}.
+
+Definition pick_one_of_two : defn :=
+  {| p_format := None; p_reqs := [SFrom false 1 0 0 1]; p_descs := [dsimple 1 [1]; dsimple 2 [1]] |}.
+
+(* HISTORICAL REFUTATIONS (code as found, corpus/C20): *)
+(* 1. pick count 1 of {d1,d2}, one credential for d1: CreateVP succeeds, Match rejects its output *)
+Theorem verifier_accepts_asis_refuted :
+  exists x, create_vp AsIs pick_one_of_two [csimple 101 [(1, VNum 1)]] = COk x /\
+            verifier_match AsIs pick_one_of_two false x = MReq /\
+            exists l, verifier_match Fixed pick_one_of_two false x = MOk l.
+Proof. eexists. split; [vm_compute; reflexivity|]. split; [vm_compute; reflexivity|]. eexists. vm_compute. reflexivity. Qed.
+Print Assumptions verifier_accepts_asis_refuted.
+
+(* 2. two credentials without id, one per descriptor: as found, the presentation carries the first one only, d2 is
+   mapped to it and Match returns for d2 a credential that fails d2's constraints; repaired, both are carried *)
+Definition two_descriptors : defn := {| p_format := None; p_reqs := []; p_descs := [dsimple 1 []; dsimple 2 []] |}.
+Theorem holder_output_satisfies_asis_refuted :
+  let creds := [csimple 0 [(1, VNum 1)]; csimple 0 [(2, VNum 2)]] in
+  (exists x c k, create_vp AsIs two_descriptors creds = COk x /\ length (vp_creds x) = 1%nat /\
+                 In {| mp_id := 2; mp_idx := 0; mp_vcfmt := 2 |} (vp_map x) /\
+                 nth_error (vp_creds x) 0 = Some c /\ d_constraints (dsimple 2 []) = Some k /\ constraints_ok k c = false) /\
+  (exists x, create_vp Fixed two_descriptors creds = COk x /\ length (vp_creds x) = 2%nat /\
+             In {| mp_id := 2; mp_idx := 1; mp_vcfmt := 2 |} (vp_map x)).
+Proof.
+  split.
+  - eexists. eexists. eexists. split; [vm_compute; reflexivity|]. vm_compute. repeat split; auto.
+  - eexists. split; [vm_compute; reflexivity|]. vm_compute. auto.
+Qed.
+Print Assumptions holder_output_satisfies_asis_refuted.
+
+(* ---------- non-vacuity: a nested rule, a limited-disclosure descriptor with a predicate, a JWT credential ---------- *)
+Example accepts_nonvacuous :
+  let dl := {| d_id := 3; d_groups := [2]; d_schema := [(1, true)];
+               d_constraints := Some {| k_limit := true; k_sii := false;
+                  k_fields := [{| f_paths := [7; 8]; f_filter := Some {| ft_type := 1; ft_const := None; ft_min := Some 18%Z; ft_max := None; ft_enum := [] |};
+                                  f_optional := false; f_pred := true |}] |};
+               d_format := None |} in
+  let p := {| p_format := None;
+              p_reqs := [SNested true 0 0 0 [SFrom false 1 0 0 1; SFrom false 0 1 0 2]];
+              p_descs := [dsimple 1 [1]; dsimple 2 [1]; dl] |} in
+  let creds := [csimple 11 [(2, VNum 2); (9, VStr 1)];
+                {| c_id := 12; c_issuer := 50; c_subject := 60; c_types := [1]; c_proofs := []; c_jwt := 1;
+                   c_attrs := [(7, VNum 17); (8, VNum 30); (9, VStr 4)] |}] in
+  NoDup (map d_id (p_descs p)) /\ unique_ids creds /\
+  exists x, create_vp Fixed p creds = COk x /\
+            vp_map x = [{| mp_id := 2; mp_idx := 0; mp_vcfmt := 2 |}; {| mp_id := 3; mp_idx := 1; mp_vcfmt := 5 |}] /\
+            map c_attrs (vp_creds x) = [[(2, VNum 2); (9, VStr 1)]; [(7, VBool true); (8, VBool true)]] /\
+            exists l, verifier_match Fixed p false x = MOk l /\ map fst l = [2; 3].
+Proof.
+  cbv zeta. split; [repeat constructor; simpl; intuition discriminate|]. split.
+  - intros i j ci cj Hi Hj E _.
+    destruct i as [|[|[|i]]]; destruct j as [|[|[|j]]]; simpl in *; try discriminate; try reflexivity;
+      inversion Hi; inversion Hj; subst; discriminate.
+  - eexists. split; [vm_compute; reflexivity|]. vm_compute. repeat split. eexists. split; reflexivity.
+Qed.
